@@ -269,6 +269,7 @@ def shard_main(mod, tier, seed, shard, n, out, budget_s):
 
 def run_check(prop_id, tier, seed, replay=None, shard=None, out=None, cases=None):
     t_start = time.time()
+    os.environ["VERIF_TIER"] = tier
     sandbox.setup()
     mod = importlib.import_module("vlib.props.%s" % prop_id.lower())
     if hasattr(mod, "selftest"):
